@@ -86,6 +86,15 @@ func (vm *Manager) keepVisitorsRunning() {
 			return
 		case <-ticker.C:
 			vm.mu.Lock()
+			select {
+			case <-vm.stopCh:
+				// Close() ran while this iteration was waiting for the lock (or both cases were
+				// ready): nothing may be started any more, nobody would close it.
+				vm.mu.Unlock()
+				xl.Tracef("gracefully shutdown visitor manager")
+				return
+			default:
+			}
 			for _, cfg := range vm.cfgs {
 				name := cfg.GetBaseConfig().Name
 				if _, exist := vm.visitors[name]; !exist {
